@@ -1520,6 +1520,15 @@ pub fn c18(c: &Collector, g: &mut Guard) {
     c.bound("bfs_depth", json!(bdepth));
     c.bound("widths_defaults", json!(format!("1..={}", maxw)));
     c.bound("all_subsets_up_to_width", json!(maxsub));
+    // histories through one parser
+    crate::props::parser_words(
+        c,
+        "C18",
+        (10, 1),
+        &["\x1bH", "\x1b[g", "\x1b[3g", "\t", "\x1bc", "\x1b[5G", "\x1b[?3h", "\x1b[?3l", "\x1b7", "\x1b8"],
+        if c.thorough() { 5 } else { 4 },
+        true,
+    );
     g.need(c, "defaults_ok");
     g.need(c, "ht_with_stop_to_the_right");
     g.need(c, "ht_without_stop");
@@ -1769,6 +1778,15 @@ pub fn c14(c: &Collector, g: &mut Guard) {
     c.bound("bfs_levels_3x3", json!(st.levels));
     c.bound("geometries", json!(gs));
     c.bound("bfs_depth", json!(depth));
+    // histories through one parser (8-bit mode, so that the charset state is live)
+    crate::props::parser_words(
+        c,
+        "C14",
+        (3, 3),
+        &["\x1b7", "\x1b8", "\x1b[2;2H", "\x1b[1m", "\x1b[?6h", "\x1b[?7l", "\x1bc", "\x0e", "\x1b(0", "q"],
+        if c.thorough() { 5 } else { 4 },
+        false,
+    );
     g.need(c, "large_geometry_transitions");
     g.need(c, "restore_with_saved");
     g.need(c, "restore_empty_stack");
@@ -2005,6 +2023,15 @@ pub fn c12(c: &Collector, g: &mut Guard) {
     );
     c.bound("bfs_levels_3x2", json!(st.levels));
     c.bound("mode_numbers", json!(if c.thorough() { "0..=9999 (all)".to_string() } else { format!("{:?}", numbers) }));
+    // histories through one parser (a parser-side memo of the modes it already passed on)
+    crate::props::parser_words(
+        c,
+        "C12",
+        (3, 2),
+        &["\x1b[?7l", "\x1b[?7h", "\x1b[?6h", "\x1b[4h", "\x1b[4l", "\x1b7", "\x1b8", "\x1bc", "ab", "\x1b[?5h"],
+        if c.thorough() { 5 } else { 4 },
+        true,
+    );
     g.need(c, "large_geometry_transitions");
     g.need(c, "list_transitions");
     g.need(c, "parser_path_transitions");
@@ -2626,6 +2653,15 @@ pub fn c08(c: &Collector, g: &mut Guard) {
     }
     c.bound("single_codes", json!("0..=9999 from every rendition base"));
     c.bound("rendition_bases", json!(b1.len()));
+    // histories through one parser (a parser-side memo of the last SGR list)
+    crate::props::parser_words(
+        c,
+        "C08",
+        (3, 1),
+        &["\x1b[1m", "\x1b[0m", "\x1b[31;44m", "\x1b[9m", "\x1b7", "\x1b8", "\x1bc", "\x1b[?5h", "x", "\x1b[m"],
+        if c.thorough() { 5 } else { 4 },
+        true,
+    );
     g.need(c, "rendition_changed");
     g.need(c, "drawn_after");
     g.need(c, "extended_forms");
